@@ -20,6 +20,10 @@ Theorem C08_generated_default_exchange_guards :
 Proof. repeat split; reflexivity. Qed.
 Print Assumptions C08_generated_default_exchange_guards.
 
+Theorem C08_generated_alias_maps : alias_maps_ok gen_cfg gen_type_id_alias gen_type_alias_id = true.
+Proof. reflexivity. Qed.
+Print Assumptions C08_generated_alias_maps.
+
 (* The set of queues GetMatchedQueues returns is exactly the set the AMQP rules give, for every
    exchange type, every list of bindings made by NewBinding, every message.
    [no_f50] excludes the trigger of open finding F51 and nothing else (see C08_route_eq_spec_refuted). *)
